@@ -40,6 +40,8 @@ MANIFEST = dict(
                   kind_free_text="two-phase differential at tree level: documents (stem + text) -> real lexer + parser -> tree dumps; in-process ProjectManager on the materialised workspace (index, class tree as main_loop builds it, prepareTypeHierarchy at every identifier position of every file, supertypes / subtypes of every prepared item) vs extracted HierTree.prepare / supertypes_of / subtypes_of = Forest's builder and walkers on HierTree.forest_input_of_ws of the dumped trees; oracle from the texts")],
 )
 
+MANIFEST["text"] += " Fourth session: Model/HierTree.v derives the forest input, the prepared items and their uris/ranges from the REAL trees (engine hiertree); C13_class_super_tree, C13_class_sub_tree, C13_member_up_tree, C13_member_down_tree, C13_order_independent_tree, C13_case_independent_tree are ForestProofs' theorems as statements about trees; C13_tree_item_uri; C13_old_class_item_uri_refuted (the repaired defect 6242e0e). Member-edit histories under a warm cache (engine mode edit:<k>)."
+
 ASSUMPTIONS = [
     "a class is found through its file stem (DocumentService::get_uri_for_class): generated files have stem = class name ignoring letter case; names are ASCII ([A-Za-z0-9_]) so str::to_uppercase is ASCII upper-casing",
     "member names differ from class names and from `self`; one declaration per member name and class (search_symbol_info answers any symbol kind of that name)",
